@@ -1125,6 +1125,9 @@ where
         let mut x = self.add_constant(layouter, x, K::ONE)?;
         if enforce_canonical {
             x = self.make_canonical(layouter, &x)?;
+        } else {
+            // The limbs must fit in the well-formed bounds to be decomposed below.
+            x = self.normalize(layouter, &x)?;
         };
         let mut bits = vec![];
         x.limb_values
@@ -1145,12 +1148,22 @@ where
         // Drop the most significant bits up to the desired length, but make sure
         // they encode 0.
         let nb_bits = nb_bits.unwrap_or(K::NUM_BITS as usize);
+        // Pad with zeros if more bits are requested than the limbs provide.
+        while bits.len() < nb_bits {
+            bits.push(self.native_gadget.assign_fixed(layouter, false)?);
+        }
         bits[nb_bits..]
             .iter()
             .try_for_each(|byte| self.native_gadget.assert_equal_to_fixed(layouter, byte, false))?;
         let bits = bits[0..nb_bits].to_vec();
         if enforce_canonical && nb_bits >= K::NUM_BITS as usize {
-            let canonical = self.is_canonical(layouter, &bits)?;
+            // Bits beyond the size of the modulus must be zero, the rest must
+            // encode a canonical value.
+            let (low_bits, high_bits) = bits.split_at(K::NUM_BITS as usize);
+            high_bits
+                .iter()
+                .try_for_each(|bit| self.native_gadget.assert_equal_to_fixed(layouter, bit, false))?;
+            let canonical = self.is_canonical(layouter, low_bits)?;
             self.assert_equal_to_fixed(layouter, &canonical, true)?;
         }
         Ok(bits)
